@@ -137,4 +137,14 @@ PROPS['C12'] = {
     'assumptions': ['constraint catalogue restated from intel-ipsec-mb.h comments and the IMB_ERR_* names'],
 }
 
+PROPS['C09'] = {
+    'level': 'exploration',
+    'technique': 'bounded-exhaustive enumeration of (work item x entry point x burst size x position x variant) on the real library against the reference result of the work item',
+    'level_text': 'Part 1 (props/c09.c): per algorithm row, direction and variant, 9 work items of unequal lengths go through the job API (checked / no-check), the asynchronous burst API (checked / no-check, burst sizes 1,2,3,7,8,9,15,16,17,33,127,128) and the synchronous cipher / hash / AEAD burst calls where documented (same sizes, checked / no-check); every job result is compared with the reference. Part 2 (props/c09d.c): the direct functions (GCM/GMAC/GHASH, SHA one-shot and one-block, MD5 one-block, ZUC 1/4/N, SNOW3G 1/2/4/8/N(+multikey)/F9, KASUMI 1/2/3/4/N/F9, 12 CRCs, HEC, ChaCha20-Poly1305 direct, QUIC helpers, single-block CFB) with n below/at/above the lane count, unequal per-buffer lengths in non-sorted order, distinct IVs/keys, buffers end-flush against guard pages, and NULL / over-limit arguments.',
+    'level_note': 'Entry points the header does not document for an algorithm are not exercised; AEAD suites only in their documented chain order.',
+    'drivers': [{'name': 'c09', 'src': ['props/c09.c'] + ALG, 'cfgs': ['std'], 'args': ''}],
+    'deadline': {'quick': 900, 'thorough': 3000},
+    'assumptions': ['reference model as in C01-C03'],
+}
+
 NOT_APPLICABLE = {}
